@@ -16,6 +16,8 @@ RULE = (
     "for the total length. Invariants after every step: twin == primary sample for sample; concatenation of all "
     "blocks == the single request (<=1e-12*rms); coloured generators == scipy.signal.lfilter applied section by "
     "section to the same white stream (incl. the discarded settling prefix when init_filter=True; <=1e-10*rms). "
+    "An `align` rule (and optionally the first request) ends a block at stream position 2^k-1, 2^k or 2^k+1 counted from "
+    "the first delivered sample or from the start of the settling run; bands of less than two octaves are included. "
     "Non-trivial: >=3 requests including one of size 0 or 1 followed by a non-empty one (series mode), or a "
     "get_sample history crossing a buffer boundary."
 )
